@@ -896,7 +896,45 @@ func ruleHealthTable(r *Run) {
 	}
 	info := p.Health.TypesInfo
 	nRules := 0
-	ast.Inspect(fd.Body, func(n ast.Node) bool {
+	// the rule literals may be written in a helper of AddHealthz (healthzConfig()): follow calls of functions of
+	// the health package
+	inspectHealth := func(root ast.Node, f func(ast.Node) bool) {
+		seen := map[*ast.FuncDecl]bool{}
+		var visit func(n ast.Node, depth int)
+		visit = func(n ast.Node, depth int) {
+			ast.Inspect(n, func(x ast.Node) bool {
+				if x == nil {
+					return true
+				}
+				if !f(x) {
+					return false
+				}
+				call, ok := x.(*ast.CallExpr)
+				if !ok || depth >= 3 {
+					return true
+				}
+				id, _ := call.Fun.(*ast.Ident)
+				if id == nil {
+					return true
+				}
+				fobj, ok := info.Uses[id].(*types.Func)
+				if !ok || fobj.Pkg() != p.Health.Types {
+					return true
+				}
+				for _, file := range p.Health.Syntax {
+					for _, d := range file.Decls {
+						if hd, ok := d.(*ast.FuncDecl); ok && hd.Body != nil && info.Defs[hd.Name] == types.Object(fobj) && !seen[hd] {
+							seen[hd] = true
+							visit(hd.Body, depth+1)
+						}
+					}
+				}
+				return true
+			})
+		}
+		visit(root, 0)
+	}
+	inspectHealth(fd.Body, func(n ast.Node) bool {
 		cl, ok := n.(*ast.CompositeLit)
 		if !ok {
 			return true
@@ -1008,7 +1046,25 @@ func ruleHealthTable(r *Run) {
 	}
 	nStores, bad := 0, ""
 	var badPos token.Pos = fd.Pos()
-	for _, g := range allFuncsDeep(fn) {
+	regionFns := map[*ssa.Function]bool{}
+	for _, g := range p.region(fn) {
+		regionFns[g] = true
+	}
+	// helpers of the health package are followed whether or not they count as transparent
+	for changed := true; changed; {
+		changed = false
+		for g := range regionFns {
+			eachInstr(g, func(in ssa.Instruction) {
+				if c, ok := in.(ssa.CallInstruction); ok {
+					if callee := c.Common().StaticCallee(); callee != nil && callee.Pkg != nil && callee.Pkg.Pkg == p.Health.Types && len(callee.Blocks) > 0 && !regionFns[callee] {
+						regionFns[callee] = true
+						changed = true
+					}
+				}
+			})
+		}
+	}
+	for g := range regionFns {
 		eachInstr(g, func(in ssa.Instruction) {
 			st, ok := in.(*ssa.Store)
 			if !ok {
